@@ -1,4 +1,4 @@
-/* fvmulti.c — included at the end of a *reentrant* scanner whose actions are `return <rule>;`.
+/* fvmulti.c — included at the end of a *reentrant* (or c99: -DFVM_C99) scanner whose actions are `return <rule>;`.
  * usage: scanner MODE file
  *   file:  line 1: K   then K lines of hex input, then a line with the schedule (instance indices)
  *   MODE = interleave : one thread, yylex calls in schedule order
@@ -21,7 +21,7 @@ static void fvm_log(int i, int rule, const char *t, int n) {
     if (!n) *p++ = '-';
     *p++ = '\n'; fvm_outlen[i] = (size_t) (p - fvm_out[i]);
 }
-static yyscan_t fvm_sc[FVM_MAX]; static YY_BUFFER_STATE fvm_b[FVM_MAX]; static int fvm_done[FVM_MAX];
+static yyscan_t fvm_sc[FVM_MAX]; static yybuffer fvm_b[FVM_MAX]; static int fvm_done[FVM_MAX];
 static int fvm_step(int i) {
     int r;
     if (fvm_done[i]) return 0;
@@ -43,6 +43,9 @@ int main(int argc, char **argv) {
         for (j = 0; j + 1 < n && line[j] != '\n' && line[j] != '-'; j += 2) fvm_in[i][m++] = (unsigned char) (fvm_hex(line[j]) * 16 + fvm_hex(line[j + 1]));
         fvm_len[i] = m;
         if (yylex_init(&fvm_sc[i])) return 5;
+#ifdef FVM_C99
+        yyset_out(fopen("/dev/null", "w"), fvm_sc[i]);      /* the default rule's ECHO */
+#endif
         fvm_b[i] = yy_scan_bytes((const char *) fvm_in[i], m, fvm_sc[i]);
     }
     if (!strcmp(argv[1], "threads")) {
